@@ -447,3 +447,37 @@ def rg_shares_back(A, data, y, x, n, rows, cols):
 def rg_separated(a, b):
     # np.isclose-style matching (atol 1e-8, rtol 1e-5) coincides with equality on the values of the raster
     return (not (isfinite(a) and isfinite(b))) or (not (abs(a - b) <= 1e-08 + 1e-05 * abs(b))) or a == b
+
+
+def rg_ny(n, k, y, rows):
+    # row of window slot k of the cell (clamped at the border, as the kernel reads it)
+    if n == 8:
+        if k == 0 or k == 3 or k == 5:
+            return max(y - 1, 0)
+        if k == 1 or k == 6:
+            return y
+        return min(y + 1, rows - 1)
+    if k == 1:
+        return max(y - 1, 0)
+    if k == 2:
+        return min(y + 1, rows - 1)
+    return y
+
+
+def rg_nx(n, k, x, cols):
+    if n == 8:
+        if k <= 2:
+            return max(x - 1, 0)
+        if k <= 4:
+            return x
+        return min(x + 1, cols - 1)
+    if k == 0:
+        return max(x - 1, 0)
+    if k == 3:
+        return min(x + 1, cols - 1)
+    return x
+
+
+def rg_wit(A, data, y, x, n, rows, cols):
+    # a cell with an earlier n-neighbour of equal value carries the label of one of them
+    return isnan(data[y, x]) or (not rg_has_back(data, y, x, n, rows, cols)) or rg_shares_back(A, data, y, x, n, rows, cols)
